@@ -22,6 +22,7 @@ import (
 	"github.com/vx-labs/wasp/v4/wasp/audit"
 	"github.com/vx-labs/wasp/v4/wasp/distributed"
 	"github.com/vx-labs/wasp/v4/wasp/expiration"
+	"github.com/vx-labs/wasp/v4/wasp/messages"
 	"github.com/vx-labs/wasp/v4/wasp/sessions"
 
 	"verif/internal/vk"
@@ -326,7 +327,14 @@ func scenarios() []*Scenario {
 			}},
 				{"DeleteSession(r1)", func(s any) string { s.(*dsys).st.Subscriptions().DeleteSession("r1"); return "" }}},
 		},
-		Observe: func(s any) string { return s.(*dsys).view() },
+		// what a later lookup resolves is part of the observation (a cached route must not outlive a change)
+		Observe: func(s any) string {
+			var r []string
+			for _, x := range s.(*dsys).st.Subscriptions().ByPattern([]byte("m/a")) {
+				r = append(r, x.SessionID)
+			}
+			return s.(*dsys).view() + " ByPattern(m/a)=" + sortedJoin(r)
+		},
 	})
 	out = append(out, &Scenario{
 		Name: "distributed: sessions.Create(s1) || sessions.Create(s2) || DeletePeer(1);ByPeer(1)",
@@ -416,6 +424,81 @@ func scenarios() []*Scenario {
 			return sortedJoin(append([]string{}, a.log...))
 		},
 	})
+	// (3d) acknowledging the only entry of a second while another exchange registers in that second
+	out = append(out, &Scenario{
+		Name: "ack.Queue: [s/1 @T] Ack(s/1) || Insert(s/2,T+0.2s) || Expire(T+5s)",
+		New: func() any {
+			a := &ackSys{q: ack.NewQueue()}
+			a.q.Insert("s", pub1(1), T0, a.cb("s/1"))
+			return a
+		},
+		Threads: [][]Op{
+			{{"Ack(s/1)", func(s any) string { return errs(s.(*ackSys).q.Ack("s", puback(1))) }}},
+			{{"Insert(s/2)", func(s any) string {
+				return errs(s.(*ackSys).q.Insert("s", pub1(2), T0.Add(200*time.Millisecond), s.(*ackSys).cb("s/2")))
+			}}},
+			{{"Expire(T+5s)", func(s any) string { s.(*ackSys).q.Expire(T0.Add(5 * time.Second)); return "" }}},
+		},
+		Observe: func(s any) string {
+			a := s.(*ackSys)
+			a.q.Expire(T0.Add(1000 * time.Second))
+			return sortedJoin(append([]string{}, a.log...))
+		},
+	})
+	// (3e) a wrong-type acknowledgement racing with the right one and with the sweep
+	out = append(out, &Scenario{
+		Name: "ack.Queue: [s/1 @T] Ack(s/1,wrong type) || Ack(s/1) || Expire(T+5s)",
+		New: func() any {
+			a := &ackSys{q: ack.NewQueue()}
+			a.q.Insert("s", pub1(1), T0, a.cb("s/1"))
+			return a
+		},
+		Threads: [][]Op{
+			{{"WrongAck(s/1)", func(s any) string {
+				return errs(s.(*ackSys).q.Ack("s", &packet.PubComp{Header: &packet.Header{}, MessageId: 1}))
+			}}},
+			{{"Ack(s/1)", func(s any) string { return errs(s.(*ackSys).q.Ack("s", puback(1))) }}},
+			{{"Expire(T+5s)", func(s any) string { s.(*ackSys).q.Expire(T0.Add(5 * time.Second)); return "" }}},
+		},
+		Observe: func(s any) string {
+			a := s.(*ackSys)
+			a.q.Expire(T0.Add(1000 * time.Second))
+			return sortedJoin(append([]string{}, a.log...))
+		},
+	})
+	// (8) the message log under concurrent appends (no shimmed lock inside: one schedule; the race pass is what matters)
+	out = append(out, &Scenario{
+		Name: "messages.Log: Append(x) || Append(y) || Append(z) (race pass only)",
+		New: func() any {
+			dir, _ := os.MkdirTemp(os.Getenv("VERIF_SCRATCH"), "e4log")
+			l, err := messages.New(dir)
+			if err != nil {
+				panic(err)
+			}
+			return &logSys{l: l, dir: dir}
+		},
+		Threads: [][]Op{
+			{{"Append(x)", func(s any) string { return errs(s.(*logSys).l.Append(logMsg("x"))) }}},
+			{{"Append(y)", func(s any) string { return errs(s.(*logSys).l.Append(logMsg("y"))) }}},
+			{{"Append(z)", func(s any) string { return errs(s.(*logSys).l.Append(logMsg("z"))) }}},
+		},
+		Observe: func(s any) string {
+			ls := s.(*logSys)
+			var got []string
+			for off := uint64(0); off < 3; off++ {
+				p, err := ls.l.Get(off)
+				if err != nil {
+					got = append(got, "error")
+					continue
+				}
+				got = append(got, string(p.Topic)+"="+string(p.Payload))
+			}
+			ls.l.Close()
+			os.RemoveAll(ls.dir)
+			return sortedJoin(got)
+		},
+		RaceOnly: true,
+	})
 	// (7) per-session filter list
 	out = append(out, &Scenario{
 		Name: "Session: AddTopic(a);AddTopic(b) || RemoveTopic(a) || GetTopics;AddTopic(c)",
@@ -430,6 +513,15 @@ func scenarios() []*Scenario {
 		Observe: func(s any) string { return topicsOf(s.(*sessions.Session)) },
 	})
 	return out
+}
+
+type logSys struct {
+	l   messages.Log
+	dir string
+}
+
+func logMsg(v string) *packet.Publish {
+	return &packet.Publish{Header: &packet.Header{}, Topic: []byte("t/" + v), Payload: []byte(strings.Repeat(v, 40))}
 }
 
 func idClass(v int32) string {
@@ -472,6 +564,9 @@ func TestC20Schedules(t *testing.T) {
 		return
 	}
 	for _, sc := range scs {
+		if sc.RaceOnly {
+			continue
+		}
 		allowed := sc.sequentialOutcomes()
 		seen := map[string]int{}
 		completed := -1
